@@ -395,7 +395,7 @@ func discharge(groups []*Group, workDir string, timeout int, confirm bool, worke
 	subNames := map[int][]string{}
 	satOut := map[int]string{}
 	for i, r := range results {
-		if r == nil || r.Verdict != "unknown" || len(groups[i].Obls) < 2 || groups[i].Kind == "cover" || groups[i].Kind == "cover-call" {
+		if r == nil || r.Verdict != "unknown" || len(groups[i].Obls) < 1 || groups[i].Kind == "cover" || groups[i].Kind == "cover-call" {
 			continue
 		}
 		for k, o := range groups[i].Obls {
@@ -427,6 +427,19 @@ func discharge(groups []*Group, workDir string, timeout int, confirm bool, worke
 		bad := map[int]string{}
 		secs := map[int]float64{}
 		used := map[int]string{}
+		record := func(sb sub, v, s, out string, t float64) {
+			secs[sb.gi] += t
+			used[sb.gi] = s
+			if v != "unsat" {
+				if bad[sb.gi] == "" || v == "sat" {
+					bad[sb.gi] = v + " on " + filepath.Base(sb.file) + ": " + firstLines(out, 2)
+				}
+				if v == "sat" && satOut[sb.gi] == "" {
+					satOut[sb.gi] = out
+				}
+			}
+		}
+		var undecided []sub
 		for _, sb := range subs {
 			wg.Add(1)
 			sem <- struct{}{}
@@ -435,20 +448,23 @@ func discharge(groups []*Group, workDir string, timeout int, confirm bool, worke
 				defer func() { <-sem }()
 				v, s, out, t, _, _ := race2(sb.query, sb.file, sb.fileB, timeout, false)
 				mu.Lock()
-				secs[sb.gi] += t
-				used[sb.gi] = s
-				if v != "unsat" {
-					if bad[sb.gi] == "" || v == "sat" {
-						bad[sb.gi] = v + " on " + filepath.Base(sb.file) + ": " + firstLines(out, 2)
-					}
-					if v == "sat" && satOut[sb.gi] == "" {
-						satOut[sb.gi] = out
-					}
+				if v != "unsat" && v != "sat" {
+					// a time-out here is usually the machine's load (dozens of solver processes at once), not the
+					// query: it gets one more try below, alone and with a longer limit
+					secs[sb.gi] += t
+					undecided = append(undecided, sb)
+				} else {
+					record(sb, v, s, out, t)
 				}
 				mu.Unlock()
 			}(sb)
 		}
 		wg.Wait()
+		// third pass: what is still undecided, one query at a time with four times the limit
+		for _, sb := range undecided {
+			v, s, out, t, _, _ := race2(sb.query, sb.file, sb.fileB, timeout*4, false)
+			record(sb, v, s+" (retried alone)", out, t)
+		}
 		for i, r := range results {
 			if _, tried := secs[i]; !tried || r == nil {
 				continue
